@@ -702,7 +702,23 @@ func brokenTagRun(t *rapid.T) {
 		naturalFailRun(t)
 		return
 	}
-	p := genProgram(t, genOpts{noise: true, brokenPct: 100})
+	var p *Program
+	posClass := "top-level-broken-tag"
+	if uni(t, "brokeneof", 4) == 0 {
+		// the input ENDS inside (or right after) a broken single-line tag, at top level or inside the body of a
+		// block that is still open: an unclosed call / array / hash / expression meets the end of the input
+		p = genProgram(t, genOpts{noise: true, maxPieces: 4})
+		openers := []string{"", "<%= for (x) in xs { %>\n<p>row</p>\n", "<%= if (b1) { %>\n<p>row</p>\n<% } else { %>\n<p>other</p>\n", "<%= pb(0) { %>\ninner\n",
+			"<%= if (b1) { %>\n<%= for (x) in xs { %>\n"}
+		tails := []string{"<% foo(n1", "<% foo(n1, %>", "<% let y = {\"a\": %>", "<%= [1, 2", "<%= (n1 + %>", "<%= n1 +", "<% let z = "}
+		head := p.Main + "\n" + openers[uni(t, "eofopener", len(openers))]
+		p.Broken = tails[uni(t, "eoftail", len(tails))]
+		p.BrokenLine = 1 + strings.Count(head, "\n")
+		p.Main = head + p.Broken
+		posClass = "broken-tag-ending-the-input"
+	} else {
+		p = genProgram(t, genOpts{noise: true, brokenPct: 100})
+	}
 	if p.Broken == "" {
 		return
 	}
@@ -718,7 +734,7 @@ func brokenTagRun(t *rapid.T) {
 	out, err := render(p.Main)
 	count("fault_runs", 1)
 	count("fault_fired_syntax-error", 1)
-	count("pos_fired_top-level-broken-tag", 1)
+	count("pos_fired_"+posClass, 1)
 	det := func() map[string]interface{} {
 		d := p.describe()
 		d["broken_tag"], d["broken_line"] = p.Broken, p.BrokenLine
